@@ -772,6 +772,12 @@ func (s *vfSim) act(a *vfAct) {
 	case "writeerr":
 		s.net.conns[a.Side].failWrite(errors.New("vf: injected write error"))
 		return
+	case "readeof": // what a closed DTLS / pipe transport typically returns
+		s.net.conns[a.Side].failRead(io.EOF)
+		return
+	case "writeeof":
+		s.net.conns[a.Side].failWrite(fmt.Errorf("vf: transport gone: %w", io.EOF))
+		return
 	}
 	if s.as[a.Side] == nil {
 		return
@@ -1020,6 +1026,28 @@ func vfCheckExact(k vfStreamKey, ws []*vfWriteRec, rs []vfReadRec) string {
 	}
 	if len(rs) < len(ws) {
 		return fmt.Sprintf("stream %+v: only %d of %d messages delivered (first missing id=%d size=%d)", k, len(rs), len(ws), ws[len(rs)].ID, ws[len(rs)].Size)
+	}
+	return ""
+}
+
+// vfCheckDelivery: the oracle for a reliable stream of a transfer scenario: exact order for
+// ordered streams, exactly-once (multiset equality) for streams the scenario made unordered.
+func vfCheckDelivery(sc *vfE1, k vfStreamKey, ws []*vfWriteRec, rs []vfReadRec) string {
+	unord := false
+	for i := range sc.Acts {
+		a := &sc.Acts[i]
+		if a.Kind == "setrel" && a.Side == k.Side && uint16(a.SID) == k.SID && a.Unord && a.RelT == 0 {
+			unord = true
+		}
+	}
+	if !unord {
+		return vfCheckExact(k, ws, rs)
+	}
+	if m, _ := vfCheckSubset(k, ws, rs, false); m != "" {
+		return m
+	}
+	if len(rs) < len(ws) {
+		return fmt.Sprintf("stream %+v (unordered): only %d of %d messages delivered", k, len(rs), len(ws))
 	}
 	return ""
 }
